@@ -148,6 +148,17 @@ class ObjV(V):
         return 'ObjV(%s)' % self.cls.name
 
 
+class PartialV(V):
+    """functools.partial(func, *args, **kwargs)"""
+    __slots__ = ('func', 'args', 'kwargs')
+
+    def __init__(self, func, args, kwargs):
+        self.func, self.args, self.kwargs = func, args, kwargs
+
+    def __repr__(self):
+        return 'partial(%s)' % ','.join([_prov(self.func)] + [_prov(a) for a in self.args])
+
+
 class FuncV(V):
     __slots__ = ('fn', 'env', 'node')
 
@@ -401,6 +412,10 @@ class Interp:
             return self.call_prim(f.name, args, kwargs, node)
         if isinstance(f, BoundV):
             return self.call_method(f.obj, f.name, args, kwargs, node)
+        if isinstance(f, PartialV):
+            kw = dict(f.kwargs)
+            kw.update(kwargs)
+            return self.call_function(f.func, list(f.args) + list(args), kw, node)
         if isinstance(f, TypeV):
             return self.construct(f, args, kwargs, node)
         if isinstance(f, Sym):
@@ -463,11 +478,11 @@ class Interp:
             if k in names:
                 given[k] = v
             elif a.kwarg is None:
-                raise Undecided('unexpected keyword %s for %s' % (k, fn.key))
+                raise Raised('TypeError: unexpected keyword argument %s for %s' % (k, fn.key), fn.node.lineno)
         if a.vararg:
             fr.vars[a.vararg.arg] = TupleV(extra)
         elif extra:
-            raise Undecided('too many positional arguments for %s' % fn.key)
+            raise Raised('TypeError: too many positional arguments for %s' % fn.key, fn.node.lineno)
         if a.kwarg:
             rest = [(Const(k), v) for k, v in kwargs.items() if k not in names]
             if getattr(self, 'concrete_context', False):
@@ -979,6 +994,8 @@ class Interp:
             return l.v == r.v
         if isinstance(l, TypeV) and isinstance(r, TypeV):
             return l.name == r.name
+        if isinstance(l, PartialV) or isinstance(r, PartialV):
+            return l is r
         if isinstance(l, (Sym, SymStr)) and isinstance(r, (Sym, SymStr)) and l.prov == r.prov:
             return True
         if isinstance(l, AnnotV) and isinstance(r, AnnotV) and isinstance(l.label, str) and isinstance(r.label, str):
@@ -1000,9 +1017,9 @@ class Interp:
             if l.t is D.NIL or r.t is D.NIL or l.t is D.HL or r.t is D.HL:
                 return l.t is r.t
             return None
-        if isinstance(l, (DocV, ListV, TupleV, CtxV, FuncV, AnnotV, ValueV, SetV, DictV, ObjV)) and isinstance(r, Const):
+        if isinstance(l, (DocV, ListV, TupleV, CtxV, FuncV, AnnotV, ValueV, SetV, DictV, ObjV, Prim, TypeV, PartialV, BoundV)) and isinstance(r, Const):
             return False
-        if isinstance(r, (DocV, ListV, TupleV, CtxV, FuncV, AnnotV, ValueV, SetV, DictV, ObjV)) and isinstance(l, Const):
+        if isinstance(r, (DocV, ListV, TupleV, CtxV, FuncV, AnnotV, ValueV, SetV, DictV, ObjV, Prim, TypeV, PartialV, BoundV)) and isinstance(l, Const):
             return False
         if isinstance(l, FuncV) and isinstance(r, FuncV):
             return l.fn is r.fn
@@ -1100,7 +1117,7 @@ class Interp:
             return bool(v.v)
         if isinstance(v, (ListV, TupleV, SetV, DictV)):
             return len(v.items) > 0
-        if isinstance(v, (DocV, CtxV, FuncV, Prim, TypeV, AnnotV, BoundV, ObjV)):
+        if isinstance(v, (DocV, CtxV, FuncV, Prim, TypeV, AnnotV, BoundV, ObjV, PartialV)):
             return True
         if isinstance(v, SymStr):
             if v.nonempty is True:
@@ -1173,6 +1190,14 @@ class Interp:
                 return r if r is not None else (args[1] if len(args) > 1 else NONE)
             if name == 'copy':
                 return DictV(list(obj.items))
+            if name == 'pop':
+                for i_, (kk, vv) in enumerate(obj.items):
+                    if DictV._same_key(kk, args[0]):
+                        del obj.items[i_]
+                        return vv
+                if len(args) > 1:
+                    return args[1]
+                raise Raised('KeyError: %s' % _prov(args[0]), getattr(node, 'lineno', 0))
             if name == 'setdefault':
                 r = obj.get(args[0])
                 if r is None:
@@ -1226,6 +1251,13 @@ class Interp:
             if isinstance(r, tuple):
                 return TupleV([Const(x) for x in r])
             return Const(r)
+        if name == 'format' and isinstance(obj, Const) and isinstance(obj.v, str) and not kwargs and args \
+                and all(isinstance(a, Const) and isinstance(a.v, (str, int)) and not isinstance(a.v, bool) for a in args) \
+                and getattr(self, 'concrete_context', False):
+            try:
+                return Const(obj.v.format(*[a.v for a in args]))
+            except Exception as e:
+                raise Raised('%s: %s' % (type(e).__name__, e), getattr(node, 'lineno', 0))
         if name == 'format':
             parts = ','.join(_prov(a) for a in args)
             ne = True if (isinstance(obj, Const) and obj.v.replace('{}', '')) else None
@@ -1269,9 +1301,10 @@ class Interp:
             bound = dict(zip(params, args))
             bound.update(kwargs)
             return DocV(self.mk_doc(name, bound, node))
-        if name == 'CommentAnnotation':
+        concrete = getattr(self, 'concrete_classes', None) or ()
+        if name == 'CommentAnnotation' and name not in concrete:
             return AnnotV(('comment', _prov(args[0])))
-        if name in ('_CommentedValue', '_TrailingCommentedValue'):
+        if name in ('_CommentedValue', '_TrailingCommentedValue') and name not in concrete:
             return Sym('%s(%s)' % (name, ','.join(_prov(a) for a in args)))
         if name == 'PrettyContext' and not getattr(self, 'concrete_context', False):
             return CtxV('ctx', 0, kwargs.get('multiline_strategy'), {k: v for k, v in kwargs.items()})
@@ -1320,6 +1353,8 @@ class Interp:
 
     def type_of(self, v):
         if isinstance(v, ObjV):
+            if '__class__' in v.attrs:
+                return v.attrs['__class__']
             return TypeV(v.cls.name)
         if isinstance(v, ValueV):
             return v.type
@@ -1453,7 +1488,7 @@ class Interp:
         return Const(self.decide('isinstance(%s, %s)' % (_prov(v), '|'.join(sorted(names)))))
 
     def p_callable(self, a, k, n):
-        return Const(isinstance(a[0], (FuncV, Prim, TypeV)) or (isinstance(a[0], Sym) and a[0].typ == 'callable'))
+        return Const(isinstance(a[0], (FuncV, Prim, TypeV, PartialV)) or (isinstance(a[0], Sym) and a[0].typ == 'callable'))
 
     def p_enumerate(self, a, k, n):
         return ListV([TupleV([Const(i), x]) for i, x in enumerate(self.iterate(a[0], n))])
@@ -1528,15 +1563,21 @@ class Interp:
     def p_repr(self, a, k, n):
         return SymStr('repr(%s)' % _prov(a[0]), nonempty=True)
 
-    def p_max(self, a, k, n):
-        if all(isinstance(x, Const) for x in a):
-            return Const(max(x.v for x in a))
-        return Sym('max(%s)' % ','.join(_prov(x) for x in a), 'int')
-
     def p_min(self, a, k, n):
         if all(isinstance(x, Const) for x in a):
-            return Const(min(x.v for x in a))
+            try:
+                return Const(min(x.v for x in a))
+            except TypeError as e:
+                raise Raised('TypeError: %s' % e, getattr(n, 'lineno', 0))
         return Sym('min(%s)' % ','.join(_prov(x) for x in a), 'int')
+
+    def p_max(self, a, k, n):
+        if all(isinstance(x, Const) for x in a):
+            try:
+                return Const(max(x.v for x in a))
+            except TypeError as e:
+                raise Raised('TypeError: %s' % e, getattr(n, 'lineno', 0))
+        return Sym('max(%s)' % ','.join(_prov(x) for x in a), 'int')
 
     def p_cycle(self, a, k, n):
         return Sym('cycle(%s)' % _prov(a[0]))
@@ -1581,6 +1622,8 @@ class Interp:
         return ListV(items[i:])
 
     def p_partial(self, a, k, n):
+        if getattr(self, 'concrete_partial', False):
+            return PartialV(a[0], list(a[1:]), dict(k))
         return Sym('partial(%s)' % ','.join(_prov(x) for x in a))
 
 
@@ -1588,7 +1631,18 @@ _METHODS = {'append', 'extend', 'reverse', 'insert', 'copy', 'sort', 'update', '
             'count', 'find', 'replace', 'get', 'startswith', 'endswith', 'lower', 'upper', 'strip', 'rstrip', 'index'}
 
 
+_GEN_CACHE = {}
+
+
 def _is_generator(fn_node):
+    r = _GEN_CACHE.get(id(fn_node))
+    if r is None or r[0] is not fn_node:
+        r = (fn_node, _is_generator_uncached(fn_node))
+        _GEN_CACHE[id(fn_node)] = r
+    return r[1]
+
+
+def _is_generator_uncached(fn_node):
     stack = list(fn_node.body)
     while stack:
         n = stack.pop()
